@@ -2,14 +2,14 @@
    step by step, prints one canonical token per step and a final state token.
 
    hist <event>*
-     C                                   connect + Hello
+     C / Cu                              connect + Hello (Cu: as a uid that is neither root nor the bus's own)
      D.<c>                               disconnect
      S.<c>.<c|r|e|s>.<dest>.<iface>.<member>.<serial>.<rserial>.<err>.<noreply>.<noauto>
      R.<c>.<serial>.<name>.<dnq>         RequestName (flags 0 or DO_NOT_QUEUE)
      L.<c>.<serial>.<name>               ReleaseName
      A.<c>.<serial>.<filter>             AddMatch
      G.<c>.<serial>                      GetId
-     B.<c>.<serial>.<filter>,<filter>..  BecomeMonitor ("-" = empty array)
+     B.<c>.<serial>.<filter>,<filter>..[.<flags>.<sig_ok>]  BecomeMonitor ("-" = empty array, "!" = a rule that does not parse)
    dest / names: "-" none, "d" org.freedesktop.DBus, u<k> unique name of connection k, n<k> well-known name k
    filter: <type|->/<sender|->/<dest|->/<iface|->/<member|->
    result per step: "!" (ill-formed), "-" (no output) or entries joined by "+":
@@ -49,9 +49,13 @@ let parse_filter (s : string) : flt =
         f_iface = parse_on i; f_member = parse_on m }
   | _ -> failwith ("filter " ^ s)
 
+(* "!" stands for a rule string that does not parse *)
+let parse_rules fs = if fs = "-" then [] else List.map (fun x -> if x = "!" then None else Some (parse_filter x)) (String.split_on_char ',' fs)
+
 let parse_event (tok : string) : event =
   match String.split_on_char '.' tok with
-  | ["C"] -> EConnect
+  | ["C"] -> EConnect true
+  | ["Cu"] -> EConnect false
   | ["D"; c] -> EDisconnect (ni c)
   | ["S"; c; ty; d; i; m; ser; rser; err; nr; na] ->
       ESend (ni c, { b_type = parse_type ty; b_sender = SNone; b_dest = parse_oname d; b_iface = ni i; b_member = ni m;
@@ -60,7 +64,8 @@ let parse_event (tok : string) : event =
   | ["L"; c; s; n] -> EReleaseName (ni c, ni s, ni n)
   | ["A"; c; s; f] -> EAddMatch (ni c, ni s, parse_filter f)
   | ["G"; c; s] -> EGetId (ni c, ni s)
-  | ["B"; c; s; fs] -> EBecomeMonitor (ni c, ni s, (if fs = "-" then [] else List.map parse_filter (String.split_on_char ',' fs)))
+  | ["B"; c; s; fs] -> EBecomeMonitor (ni c, ni s, true, N0, parse_rules fs)
+  | ["B"; c; s; fs; fl; sg] -> EBecomeMonitor (ni c, ni s, b sg, ni fl, parse_rules fs)
   | _ -> failwith ("event " ^ tok)
 
 let show_name = function NDriver -> "d" | NUniq c -> "u" ^ string_of_int (int_of_n c) | NWk k -> "n" ^ string_of_int (int_of_n k)
@@ -97,9 +102,9 @@ let run_hist (evs : string list) : string =
       let o = show_out (outs items) in
       (* a connection the bus closed by itself (a monitor that sent something) reads EOF: <c>:X *)
       let closed = (match e with
-        | EConnect | EDisconnect _ -> []
+        | EConnect _ | EDisconnect _ -> []
         | ESend (c, _) | ERequestName (c, _, _, _) | EReleaseName (c, _, _) | EAddMatch (c, _, _) | EGetId (c, _)
-        | EBecomeMonitor (c, _, _) ->
+        | EBecomeMonitor (c, _, _, _, _) ->
             if List.mem c !st.st_conns && not (List.mem c st'.st_conns) then [string_of_int (int_of_n c) ^ ":X"] else []) in
       st := st';
       (match closed with [] -> o | x :: _ -> if o = "-" then x else o ^ "+" ^ x)
